@@ -1,9 +1,13 @@
 (* C07 - actors end when stopped or unreferenced, and only then.
    Proved: the four causes of on_stop; no spontaneous ending (on_run's flag plays no role);
    weak references are not references (they are not part of the state [refs_gone] reads).
-   The "eventually ends" half is stated as enabledness + causes; the fairness of the tokio
-   scheduler that turns it into termination is outside the model (partial). *)
-From RS Require Import Tactics Spec Lifecycle CoreInv StepCases Delivery Refs.
+   The "eventually ends" half is a ranking argument (the C07_rank theorems): once a stop request is queued the
+   actor's state has a rank that nothing raises, that every enabled step of the actor lowers (or
+   on_stop is entered / the actor ends), and some step of the actor is enabled unless its hook is
+   blocked on an operation - so on_stop is entered after at most [rank] steps of the actor.  What
+   turns "enabled" into "taken" is the fairness of the tokio scheduler (a woken task is
+   eventually polled), which is outside the model (partial). *)
+From RS Require Import Tactics Spec Lifecycle CoreInv StepCases Delivery Refs ActorSpec Idle Rank.
 
 (* on_stop is entered only because: a kill signal was buffered (killed = true); or no strong
    reference is left anywhere - table refs, queued envelopes or stop markers, unfinished
@@ -56,7 +60,45 @@ Theorem C07_upgrade : forall s a x y,
   a_ext y = if refs_gone s a x then a_ext x else S (a_ext x).
 Proof. exact upgrade_iff_strong. Qed.
 
+(* ranking: one step of the whole system, from any state whose select shapes are well-formed (every
+   reachable state is: sel_ok) *)
+Theorem C07_rank_step : forall s l a x r,
+  sel_ok s -> get_actor s a = Some x -> rank x = Some r ->
+  exists y, get_actor (sys_step s l) a = Some y /\ (rank y = Some r \/ lower y r) /\
+            (label_actor l = Some a -> ~ guard_fails l x -> lower y r).
+Proof. exact rank_step. Qed.
+
+Theorem C07_rank_own_step_enabled : forall (a : aid) x r,
+  rank x = Some r -> sel_shape (a_pc x) -> (in_hook x = true -> hop_free x = true) ->
+  exists l, label_actor l = Some a /\ ~ guard_fails l x.
+Proof. exact own_step_enabled. Qed.
+
+Theorem C07_rank_never_increases : forall f ls ls2 a x r,
+  get_actor (run f ls) a = Some x -> rank x = Some r ->
+  exists y, get_actor (run f (ls ++ ls2)) a = Some y /\
+            ((exists r', rank y = Some r' /\ r' <= r) \/ stopping (a_pc y)).
+Proof. exact run_rank_never_increases. Qed.
+
+(* non-vacuity: two tells and a stop are queued while on_start runs: rank 4*2+4 = 12; twelve steps
+   of the actor later it is in on_stop, later sends notwithstanding *)
+Definition c07_rank_example : list label :=
+  [LSpawn 4; LBegin 1 KTell 0 None None FTell; LBegin 2 KTell 0 None None FTell; LBegin 3 KStop 0 None None FStop].
+Definition c07_rank_steps : list label :=
+  [AStartDone 0 HOk; APassBegin 0 0; APoll 0 RPending; LBegin 4 KTell 0 None None FTell; APoll 0 RPending; AHandleDone 0 HOk;
+   APassBegin 0 0; APoll 0 RPending; APoll 0 RPending; AHandleDone 0 HOk;
+   APassBegin 0 0; APoll 0 RPending; APoll 0 RPending].
+Example C07_rank_example_run :
+  option_map rank (get_actor (run no_feats c07_rank_example) 0) = Some (Some 12) /\
+  option_map a_pc (get_actor (run no_feats (c07_rank_example ++ c07_rank_steps)) 0) = Some (PStop false CStopMark) /\
+  length (filter (fun l => match label_actor l with Some _ => true | None => false end) c07_rank_steps) = 12.
+Proof. vm_compute. repeat split; reflexivity. Qed.
+
 Check C07_causes. Check C07_no_spontaneous_end. Check C07_stop_after_backlog.
+Check C07_rank_step. Check C07_rank_own_step_enabled. Check C07_rank_never_increases.
+Print Assumptions C07_rank_step.
+Print Assumptions C07_rank_own_step_enabled.
+Print Assumptions C07_rank_never_increases.
+Print Assumptions C07_rank_example_run.
 Check C07_refs_gone_means_drained. Check C07_upgrade.
 Print Assumptions C07_causes.
 Print Assumptions C07_no_spontaneous_end.
